@@ -279,8 +279,23 @@ enum Done {
 }
 
 /// Result: per instance either a digest or an error string.
+/// a crowd of idle, live JitterRng instances (each over a private counter): alive while the schedule runs
+fn crowd(n: u32) -> Vec<Box<dyn std::any::Any>> {
+    use std::sync::atomic::{AtomicU64, Ordering};
+    (0..n)
+        .map(|i| {
+            let c = Arc::new(AtomicU64::new(1_000 + i as u64));
+            let j = rand_jitter::JitterRng::new_with_timer(move || c.fetch_add(977 + (i as u64 % 13) * 31, Ordering::Relaxed));
+            Box::new(j) as Box<dyn std::any::Any>
+        })
+        .collect()
+}
+
 pub fn run_interleaved(spec: &Spec, mode: &str) -> Vec<Result<u64, String>> {
     let n = spec.insts.len();
+    // `spec.pre` idle JitterRng instances are created first and stay alive until the schedule is over (a pool
+    // of per-instance resources would run out; the alone baseline has no crowd)
+    let _crowd = crowd(spec.pre);
     // instances are constructed lazily, right before their first operation (on the thread that
     // performs it), so that other instances' operations and disturbances can precede construction
     let mut gens: Vec<Option<Box<dyn DynGen>>> = (0..n).map(|_| None).collect();
@@ -752,6 +767,7 @@ impl Scenario for C19 {
             } else {
                 let mut i = gen_inst(rng);
                 if jitter_heavy {
+                    spec.pre = *rng.pick(&[0u32, 0, 15, 16, 40]);
                     while i.kind != Kind::Jitter {
                         i = gen_inst(rng);
                     }
